@@ -288,7 +288,7 @@ func isAllocOf(v ssa.Value, typeName string) bool {
 
 func init() {
 	register(&Def{ID: "C03", Run: func(c *an.Check) { loadConst(c, "crypto/tls", "certificatePrefix"); c03(c) },
-		Explain:     "Decides on SSA: (R1) PubKeyFromCertChain reaches its success return only past {one certificate, key extension found, x509 Verify, CheckSignature of the certificate over its own TBS bytes with its own key (self-signature; x509.Verify alone skips the signature of a certificate that is its own root), asn1 decode, key parse, PKIX encode, signature err==nil, valid==true}; the verified message is certificatePrefix‖PKIX(chain[0].PublicKey) under the key parsed from the extension, which is the key returned; GenerateSignedExtension signs the same construction (MIRROR); the VerifyPeerCertificate closure of ConfigForPeer accepts / publishes the key only past PubKeyFromCertChain ok and (remote==\"\" or remote.MatchesPublicKey(key)); ConfigForPeer always installs that closure; (WHO) InsecureSkipVerify is set on a tls.Config only in NewIdentity and Identity.config is used only by NewIdentity/ConfigForPeer; quic.Link.remotePeerID is written only in NewLink from DetermineSessionIdentity(sess) = IDFromPublicKey(PubKeyFromCertChain(TLS peer certificates)).",
+		Explain:     "Decides on SSA: (R1) PubKeyFromCertChain reaches its success return only past {one certificate, key extension found, x509 Verify, CheckSignature of the certificate over its own TBS bytes with its own key (self-signature; x509.Verify alone skips the signature of a certificate that is its own root), asn1 decode, key parse, PKIX encode, signature err==nil, valid==true}; the verified message is certificatePrefix‖PKIX(chain[0].PublicKey) under the key parsed from the extension, which is the key returned; GenerateSignedExtension signs the same construction (MIRROR); the VerifyPeerCertificate closure of ConfigForPeer accepts / publishes the key only past PubKeyFromCertChain ok and (remote==\"\" or remote.MatchesPublicKey(key)); ConfigForPeer always installs that closure; (WHO) InsecureSkipVerify is set on a tls.Config only in NewIdentity and Identity.config is used only by NewIdentity/ConfigForPeer; quic.Link.remotePeerID is written only in NewLink from DetermineSessionIdentity(sess) = IDFromPublicKey(PubKeyFromCertChain(TLS peer certificates)). Shared: the Ed25519 leg and classifier (certChainGates → ed25519VerifyGates); (CALLARG) quic HandleConn / DialSession* / ListenSession / BuildIncomingTlsConf forward their expected-peer argument unchanged down to ConfigForPeer.",
 		NotCov:      "x509/TLS/QUIC library behaviour and the value-level claim about forged or re-signed extensions are trusted/not decided.",
 		Assumptions: commonAssumptions})
 }
